@@ -452,7 +452,13 @@ struct Emitter {
             if (auto *AE = dyn_cast<AtomicExpr>(E)) {
                 std::vector<const Stmt *> a;
                 for (const Stmt *c : const_cast<AtomicExpr *>(AE)->children()) a.push_back(c);
-                return head(S, "atomic") + ",\"op\":" + std::to_string((int)AE->getOp()) + kids(a, top) + "}";
+                const char *bn = "";
+                switch (AE->getOp()) {
+#define BUILTIN(ID, TYPE, ATTRS)
+#define ATOMIC_BUILTIN(ID, TYPE, ATTRS) case AtomicExpr::AO##ID: bn = #ID; break;
+#include "clang/Basic/Builtins.def"
+                }
+                return head(S, "atomic") + ",\"op\":" + std::to_string((int)AE->getOp()) + ",\"name\":" + jstr(bn) + kids(a, top) + "}";
             }
             if (auto *OE = dyn_cast<OpaqueValueExpr>(E)) {
                 if (OE->getSourceExpr()) return tree(OE->getSourceExpr(), top);
